@@ -72,6 +72,8 @@ const ENC = {
   pickAlias: (m, c) => { if (!m.length || m.some((e) => e.special)) return null; const k = c.fresh('K'); const i = c.inner(m.concat([EXTRA])); return { type: `Pick<${i.type}, ${k}>`, decls: i.decls.concat([`type ${k} = ${m.map((e) => `'${e.name}'`).join(' | ')};`]), map: i.map.filter((e) => e.name !== 'zz') }; },
   omit: (m, c) => { const i = c.inner(m.concat([EXTRA])); return { type: `Omit<${i.type}, 'zz'>`, decls: i.decls, map: i.map.filter((e) => e.name !== 'zz') }; },
   index: (m, c) => { const n = c.fresh('O'); const i = c.inner(m); return { type: `${n}['k']`, decls: i.decls.concat([`type ${n} = { k: ${i.type}; other: string };`]), map: i.map }; },
+  index2: (m, c) => { const n = c.fresh('O'); const i = c.inner(m); return { type: `${n}['k']['j']`, decls: i.decls.concat([`type ${n} = { k: { j: ${i.type}; k: { wrong: 1 } }; j: { alsoWrong: 2 } };`]), map: i.map }; },
+  index2Iface: (m, c) => { const n = c.fresh('O'), p = c.fresh('P'); const i = c.inner(m); return { type: `${n}['row']['cell']`, decls: i.decls.concat([`interface ${p} { cell: ${i.type}; row: { no: 1 } }`, `interface ${n} { row: ${p}; cell: { no: 2 } }`]), map: i.map }; },
   indexIface: (m, c) => { const n = c.fresh('O'); const i = c.inner(m); return { type: `${n}['k']`, decls: i.decls.concat([`interface ${n} { k: ${i.type}; other: string }`]), map: i.map }; },
 };
 const ENC_KEYS = Object.keys(ENC);
